@@ -135,3 +135,20 @@ def warm_object(case, build, run_queries):
     if rep % 4 == 3 and not case.get("ts"):
         obj = obj.copy()
     return obj, lab, inv
+
+
+# ---- flavour S: a node that is NOT in the graph, drawn from every label family (2-/3-/0-tuples break '"%s" % label') ----
+MISSING = {"int": 10 ** 6 + 7, "bigint": (1 << 61) + 3, "neg": -(10 ** 6) - 3, "str": "Xmissq", "char": "~", "tuple2": ("n", 10 ** 6),
+           "tuple3": ("n", 1, 2), "tuple0": (), "frozenset": frozenset({"missing"})}
+NON_ITERABLE = ("int", "bigint", "neg")
+
+
+def exc_class(f, *a, **kw):
+    """class name of the exception of f(*a) (a returned generator is consumed), or 'no-exception'"""
+    try:
+        r = f(*a, **kw)
+        if hasattr(r, "__next__"):
+            list(r)
+        return "no-exception"
+    except Exception as e:  # noqa
+        return type(e).__name__
